@@ -26,7 +26,8 @@ LEVEL_TEXT = ("held on N generated runs x every tick: the sequence handed to the
               "by the generator and required as coverage buckets.")
 LEVEL_NOTE = ("virtual time; an arrival at exactly a tick's virtual instant is a genuine race and that tick is skipped "
               "(counted); the reference adopts the capacity observed on the helper at each tick (a capacity that grows "
-              "later does not resurrect evicted samples); input series are time-ordered per the property's domain")
+              "later does not resurrect evicted samples); input series are time-ordered per the property's domain"
+              ' Build phase: non-UTC sample stamps, infinite values, equal timestamps, default resampling function, independent up-sampling buffer size.')
 RULE = ("seeded (period, max_age in {1,1.5,3,10}, initial/max buffer lengths {1,2,16,32}) x producer scripts with "
         "up-/down-sampling ratios, bursts, silences > max age, grid-stamped and future-stamped samples, None/NaN. "
         "distinct = canonical case JSON; non-trivial = >=5 ticks compared with a non-empty expected set and >=1 tick "
